@@ -24,7 +24,7 @@ LEVEL_TEXT = (
 
 RP = 'core/_files.py'
 Q = 'PseudoNetCDFFile.sliceDimensions'
-KINDS = ('INT', 'SLICE', 'SEQ')
+KINDS = ('INT', 'NPINT', 'SLICE', 'SEQ')   # INT: Python int, NPINT: numpy integer scalar (np.int64 ...)
 
 
 def abs_pred(e, kind, var):
@@ -40,16 +40,20 @@ def abs_pred(e, kind, var):
     if isinstance(e, ast.Call):
         d = dotted(e.func)
         if d in ('np.isscalar', 'isscalar', 'numpy.isscalar') and e.args and isinstance(e.args[0], ast.Name) and e.args[0].id == var:
-            return kind == 'INT'          # numpy fact: isscalar is True for Python/numpy numbers, False for slices and sequences
-        if d == 'isinstance' and len(e.args) == 2 and isinstance(e.args[0], ast.Name) and e.args[0].id == var and norm(e.args[1]) == 'slice':
-            return kind == 'SLICE'
+            return kind in ('INT', 'NPINT')   # numpy fact: isscalar is True for Python/numpy numbers, False for slices and sequences
+        if d == 'isinstance' and len(e.args) == 2 and isinstance(e.args[0], ast.Name) and e.args[0].id == var:
+            types = [norm(t) for t in (e.args[1].elts if isinstance(e.args[1], ast.Tuple) else [e.args[1]])]
+            table = {'slice': ('SLICE',), 'int': ('INT',), 'np.integer': ('NPINT',), 'numbers.Integral': ('INT', 'NPINT'),
+                     'list': ('SEQ',), 'tuple': ('SEQ',), 'np.ndarray': ('SEQ',)}     # Python/numpy facts: np.int64 is not an int subclass
+            if all(t in table for t in types):
+                return any(kind in table[t] for t in types)
     return None
 
 
 def abs_rewrite(e, kind, var):
     """kind of the rewritten selector expression e (in terms of selector *var* of kind *kind*)"""
     if isinstance(e, ast.Name) and e.id == var:
-        return kind if kind != 'SEQ' else 'SEQn'
+        return {'SEQ': 'SEQn', 'NPINT': 'INT'}.get(kind, kind)
     if isinstance(e, ast.IfExp):
         t = abs_pred(e.test, kind, var)
         if t is None:
@@ -63,7 +67,7 @@ def abs_rewrite(e, kind, var):
             and e.value.func.attr in ('ravel', 'flatten') and isinstance(e.value.func.value, ast.Name) and e.value.func.value.id == var:
         return 'INT'                      # one element of the sequence
     if isinstance(e, ast.Call) and dotted(e.func) in ('np.asarray', 'np.array') and e.args and isinstance(e.args[0], ast.Name) and e.args[0].id == var:
-        return kind if kind != 'SEQ' else 'SEQn'
+        return {'SEQ': 'SEQn', 'NPINT': 'INT'}.get(kind, kind)
     return None
 
 
@@ -83,6 +87,46 @@ def hazards(rewrite, seq_constraint, maxrank=4):
             if 'SEQn' in out and adv >= 2:
                 bad.append((combo, out))
     return n, bad
+
+
+def _const_eval(e, env):
+    """evaluate an integer expression on constants (the checker's own model; no repository code runs)"""
+    if isinstance(e, ast.Constant):
+        return e.value
+    if isinstance(e, ast.Name):
+        return env.get(e.id, 'UNK')
+    if isinstance(e, ast.BinOp):
+        a, b = _const_eval(e.left, env), _const_eval(e.right, env)
+        if 'UNK' in (a, b):
+            return 'UNK'
+        if isinstance(e.op, ast.Add):
+            return a + b
+        if isinstance(e.op, ast.Sub):
+            return a - b
+        return 'UNK'
+    if isinstance(e, ast.BoolOp):
+        vals = [_const_eval(x, env) for x in e.values]
+        if 'UNK' in vals:
+            return 'UNK'
+        out = vals[0]
+        for v in vals[1:]:
+            out = (out or v) if isinstance(e.op, ast.Or) else (out and v)
+        return out
+    if isinstance(e, ast.IfExp):
+        t = _const_eval(e.test, env)
+        if t == 'UNK':
+            return 'UNK'
+        return _const_eval(e.body if t else e.orelse, env)
+    if isinstance(e, ast.Compare) and len(e.ops) == 1:
+        a, b = _const_eval(e.left, env), _const_eval(e.comparators[0], env)
+        if 'UNK' in (a, b):
+            return 'UNK'
+        op = e.ops[0]
+        return {ast.Eq: a == b, ast.NotEq: a != b, ast.Lt: a < b, ast.LtE: a <= b, ast.Gt: a > b, ast.GtE: a >= b}.get(type(op), 'UNK')
+    if isinstance(e, ast.UnaryOp) and isinstance(e.op, ast.USub):
+        v = _const_eval(e.operand, env)
+        return 'UNK' if v == 'UNK' else -v
+    return 'UNK'
 
 
 def run(ctx):
@@ -108,10 +152,10 @@ def run(ctx):
         if v is None:
             raise AnalysisError('construct not understood: classification predicate %s' % norm(isarr.value))
         part[k] = v
-    if part != {'INT': False, 'SLICE': False, 'SEQ': True}:
+    if part != {'INT': False, 'NPINT': False, 'SLICE': False, 'SEQ': True}:
         ctx.violation(Finding('R-ADVIDX', RP, Q, api.stmt_of(isarr), 'the selector classification %s treats kinds as %s: index sequences must be the only "array" kind' % (norm(isarr.value), part)))
     else:
-        ctx.ok('R-ADVIDX', 'classification', where, 'isarray: INT False, SLICE False, SEQ True')
+        ctx.ok('R-ADVIDX', 'classification', where, 'isarray: int False, numpy int False, slice False, sequence True')
     # 2. the fancy/non-fancy branch on "anyisarray and needsfancy"
     t = norm(fn)
     if 'anyisarray = np.sum(list(isarray.values())) > 1' not in t or 'needsfancy = sum(isdarray) > 1' not in t:
@@ -172,7 +216,7 @@ def run(ctx):
                     return out
         # form C: the selector tuple itself
         if isinstance(idx, ast.Name) and idx.id == 'sliceo':
-            return dict((k, (k if k != 'SEQ' else 'SEQn')) for k in KINDS)
+            return dict((k, {'SEQ': 'SEQn', 'NPINT': 'INT'}.get(k, k)) for k in KINDS)
         return None
     nsites = 0
     for label, stmts, constraint, ctext in (('zipped (fancy) branch', branch.body, lambda n: n >= 2, 'two or more sequences'),
@@ -193,7 +237,6 @@ def run(ctx):
             else:
                 ctx.ok('R-ADVIDX', oid, where, 'selector rewrite %s; %d kind multisets (rank<=4, %s) all free of sequence+advanced combinations' % (rw, n, ctext))
     ctx.floor('numpy subscripts of the sliced variable', nsites, 2)
-    ctx.count('kind multisets enumerated per site (rank <= 4)', 34)
     # 3. value path: newvals -> newvaro[...]
     stores = [st for st in iter_stmts(fn.body) if isinstance(st, ast.Assign) and norm(st.targets[0]) == 'newvaro[...]']
     if not stores:
@@ -240,6 +283,31 @@ def run(ctx):
                               'slices the time flags no longer are the selected elements'))
     else:
         ctx.ok('R-TFLAGKEEP', 'ioapi wrapper', w2, 'no forced regeneration of TFLAG after the base selection')
+    # 4b. integers become unit slices that select exactly one element for every integer, including -1 (finite case analysis)
+    ctx.rule('R-UNITSLICE', 'slice(si, <stop>) selects exactly one element for negative, -1, zero and positive integers')
+    us = [c for c in walk_expr(branch.orelse[0] if branch.orelse else fn) if False]
+    unit = [c for s2 in iter_stmts(branch.orelse) for c in walk_expr(s2) if isinstance(c, ast.Call) and dotted(c.func) == 'slice' and len(c.args) == 2]
+    for c in unit:
+        v = c.args[0].id if isinstance(c.args[0], ast.Name) else None
+        res = []
+        for si in (-3, -1, 0, 2):
+            stop = _const_eval(c.args[1], {v: si})
+            if stop == 'UNK':
+                res = None
+                break
+            res.append((si, len(range(5)[slice(si, stop)])))
+        if res is None:
+            ctx.undec('R-UNITSLICE', norm(c), where, 'stop expression not evaluable on constants')
+        elif all(n_ == 1 for si, n_ in res):
+            ctx.ok('R-UNITSLICE', norm(c), where, 'one element for si in (-3, -1, 0, 2)')
+        else:
+            badsi = [si for si, n_ in res if n_ != 1]
+            ctx.violation(Finding('R-UNITSLICE', RP, Q, api.stmt_of(c), '%s selects %s elements for si = %s: an integer selection must be kept as a length-1 axis'
+                                  % (norm(c), [n_ for si, n_ in res if n_ != 1], badsi)))
+    # 4c. new dimension lengths: copyDimension honours an explicit length of 0 (empty selections)
+    from .c01 import check_copydimension
+    check_copydimension(ctx, rule='R-DIMLEN')
+    ctx.rule('R-DIMLEN', 'copyDimension applies the requested length and flag on every branch')
     # 5. functional form: pure slice
     fm = ctx.src.mod('core/_functions.py')
     sd = fm.func('slice_dim')
@@ -247,5 +315,23 @@ def run(ctx):
         ctx.ok('R-ADVIDX', 'slice_dim', 'src/PseudoNetCDF/core/_functions.py slice_dim', 'basic slice only')
     else:
         ctx.undec('R-ADVIDX', 'slice_dim', 'src/PseudoNetCDF/core/_functions.py slice_dim', 'slice idiom not recognised')
+    # the axis of the sliced dimension is looked up per variable
+    from .. import lints
+    ctx.rule('R-AXISPERVAR', 'axis indices derived from <var>.dimensions are computed for the current variable of the loop')
+    for rp_, qn in (('core/_functions.py', 'slice_dim'), ('core/_functions.py', 'reduce_dim'), ('core/_functions.py', 'convolve_dim'),
+                    ('core/_functions.py', 'stack_files'), (RP, 'PseudoNetCDFFile.stack')):
+        f9 = ctx.src.mod(rp_).func(qn)
+        li = lints.loop_invariant_axes(f9)
+        w9 = 'src/PseudoNetCDF/%s %s' % (rp_, qn)
+        if li:
+            seen9 = set()
+            for c, nm, d in li:
+                if id(d) in seen9:
+                    continue
+                seen9.add(id(d))
+                ctx.violation(Finding('R-AXISPERVAR', rp_, qn, d, 'axis %s is derived from one variable\'s dimension tuple but reused for every variable of the loop: variables that '
+                                      'carry the dimension at another position are cut along the wrong axis' % nm))
+        else:
+            ctx.ok('R-AXISPERVAR', qn, w9, 'axis looked up inside the per-variable loop')
     ctx.assumptions.append('numpy indexing: integers and sequences are advanced indices once a sequence is present; advanced indices are broadcast '
                            'together and, when separated by a slice, the broadcast axis moves to the front (numpy indexing documentation)')
